@@ -819,10 +819,55 @@ func (fr *Frame) rootOf(v ssa.Value) ssa.Value {
 			v = x.X
 		case *ssa.ChangeType:
 			v = x.X
+		case *ssa.Call:
+			// a call whose contract says `result == <parameter>` (method chaining): look through it
+			if a := fr.aliasedArg(x); a != nil {
+				v = a
+				continue
+			}
+			return v
 		default:
 			return v
 		}
 	}
+}
+
+// aliasedArg: the argument a call's result is stated to be equal to (result == p in its contract)
+func (fr *Frame) aliasedArg(c *ssa.Call) ssa.Value {
+	cc := c.Common()
+	if _, isB := cc.Value.(*ssa.Builtin); isB {
+		return nil
+	}
+	tgt := fr.resolveCall(cc)
+	var con *Contract
+	keys := []string{tgt.name}
+	if tgt.method != nil {
+		keys = append(keys, tgt.method.FullName())
+	}
+	for _, k := range keys {
+		if con = fr.eng.cs.lookup(k); con != nil {
+			break
+		}
+	}
+	if con == nil {
+		return nil
+	}
+	alias := resultAlias(con)
+	if alias == "" {
+		return nil
+	}
+	names, _ := targetParams(tgt)
+	var all []ssa.Value
+	if cc.IsInvoke() {
+		all = append(all, cc.Value)
+	}
+	all = append(all, cc.Args...)
+	for i, n := range names {
+		if (n == alias || (alias == "recv" && i == 0)) && i < len(all) {
+			return all[i]
+		}
+	}
+	return nil
 }
 
 func (fr *Frame) definedOutside(v ssa.Value, li *loopInfo) bool {
